@@ -98,6 +98,42 @@ func TestExh_C16(t *testing.T) {
 			run(C16Case{Actions: acts, DelayConnClosed: dl})
 		}
 	}
+	// the other plugin types (the stub's behaviour depends on the interfaces the plugin object
+	// implements): a plain life cycle for each, and for the Configure-less ones the runtime
+	// ends that acknowledge the registration and then fail before Configure
+	for _, pt := range pluginTypes[1:] {
+		run(C16Case{Plugin: pt, Actions: []Action{{Op: "start", Script: sc("healthy")}, {Op: "probe"}, {Op: "wait"}, {Op: "restart", Script: sc("healthy")}, {Op: "probe"}, {Op: "drop"}}})
+		run(C16Case{Plugin: pt, Actions: []Action{{Op: "start", Script: &Script{Kind: "raw", RegMs: 300, ReqMs: 300, DoSync: true, Activate: true}}, {Op: "probe"}, {Op: "stop"},
+			{Op: "start", Script: &Script{Kind: "noconfigure"}}, {Op: "start", Script: &Script{Kind: "silent"}}, {Op: "wait"}}})
+		if !ev.Known(knownD8) && !ev.Known(knownD10) {
+			for _, ms := range []int{0, 2} {
+				run(C16Case{Plugin: pt, Actions: []Action{{Op: "start", Script: &Script{Kind: "regdrop", DropMs: ms}}, {Op: "wait"}}})
+			}
+		}
+	}
+	if !ev.Known(knownD8) && !ev.Known(knownD10) {
+		// the window between the registration's acknowledgement and the end of the Configure
+		// request, byte by byte, for a plugin without a Configure handler (thorough: both
+		// directions completely, and the plugin with neither handler too)
+		pts := []string{"nocfg"}
+		if ev.Thorough() {
+			pts = []string{"nocfg", "neither"}
+		}
+		for _, pt := range pts {
+			for d := 1; d >= 0; d-- {
+				if d == s2r && !ev.Thorough() {
+					continue
+				}
+				hi := h.total[d] + 2
+				if !ev.Thorough() {
+					hi = h.r2sAtCfg + 16
+				}
+				for k := int64(0); k <= hi; k++ {
+					run(C16Case{Plugin: pt, Actions: []Action{{Op: "start", Script: &Script{Kind: "cut", Dir: dirNames[d], K: int(k)}}}})
+				}
+			}
+		}
+	}
 	// a raw runtime that completes the handshake with its own timeout fields, followed by
 	// runtime ends that stay silent without closing: whatever an earlier session made the stub
 	// store, Start returns in bounded time
